@@ -63,20 +63,18 @@ def spec (s : Shape) (dims : List Int) (keep : Bool) : Option Shape := torchRedu
 end mean_dim
 
 namespace amax
-/-- `aten_amax` / `aten_amin` (trace-only since d6091ac): `dim` omitted (`None`) or empty → `ReduceMax(self, keepdims)` without an
-axes input (reduces everything); otherwise `ReduceMax(self, dim, keepdims)` with constant axes. -/
-def model (s : Shape) (dims : Option (List Int)) (keep : Bool) : Option Shape := reduceOp s (dims.getD []) keep
+/-- `aten_amax` / `aten_amin` are scripted: one call node whose body is `ReduceMax(self, dim, keepdims)` (they were trace-only between
+d6091ac and b7dc1f9). -/
+def model (s : Shape) (dims : List Int) (keep : Bool) : Option Shape := reduceOp s dims keep
 /-- `torch.amax/amin` refuse a reduction over a zero-size axis. -/
 def specOk (s : Shape) (dims : List Int) : Bool :=
   match dims.mapM (torchDim s.length) with
   | none => false
   | some ax => if ax.isEmpty then numel s != 0 else ax.all (fun a => s.length = 0 || s.getD a 0 != 0)
-def term (red : String) (dims : Option (List Int)) (keep : Bool) : String :=
-  if (dims.getD []).isEmpty then tOp red ["x0"] [("keepdims", tB keep), ("noop_with_empty_axes", "0")]
-  else tOp red ["x0", tInts (dims.getD [])] [("keepdims", tB keep), ("noop_with_empty_axes", "0")]
-/-- `torch.amax(x, dim=(), keepdim)`: an omitted / empty `dim` reduces everything. -/
-def spec (s : Shape) (dims : Option (List Int)) (keep : Bool) : Option Shape :=
-  if specOk s (dims.getD []) then torchReduce s (dims.getD []) keep else none
+def term (name : String) (dims : List Int) (keep : Bool) : String :=
+  tOp ("pkg.onnxscript.torch_lib::" ++ name) ["x0", tInts dims] [("keepdim", tB keep)]
+def spec (s : Shape) (dims : List Int) (keep : Bool) : Option Shape :=
+  if specOk s dims then torchReduce s dims keep else none
 end amax
 
 namespace all_
